@@ -4,6 +4,7 @@ import NfpmModel.Tar
 import NfpmModel.Pax
 import NfpmModel.Cpio
 import NfpmModel.RpmHdr
+import NfpmModel.Package
 import NfpmModel.Spec.PlanSpec
 import NfpmModel.Spec.PayloadSpec
 import NfpmModel.Spec.ScriptSpec
@@ -322,6 +323,19 @@ def handle (op : String) (args : List String) : Except String String :=
     match Cpio.read b with
     | none => pure "malformed"
     | some es => pure (s!"{es.length}" ++ String.join (es.map (fun e => s!" {e.ino} {hex e.name} {e.mode} {e.links} {e.body.length}")))
+  -- whole-package assembly (Package.lean) with the compressed streams handed in: the compressor parameter is the
+  -- function that returns the real package's own compressed bytes
+  | "pkgdeb" => do
+    let (mt, dataName, cgz, dgz, sigName, sigBody) ← run1 (do
+      let mt ← pInt; let dn ← pBytes; let c ← pBytes; let d ← pBytes; let sn ← pOptBytes; let sb ← pBytes
+      pure (mt, dn, c, d, sn, sb)) args
+    let sig : Option Ar.Member := sigName.map (fun n => { name := n, body := sigBody })
+    pure (hex (Pkg.debFile mt (fun _ => cgz) (fun _ => dgz) dataName [] [] sig))
+  | "pkgipkouter" => do
+    let (mt, cgz, dgz) ← run1 (do let mt ← pNat; let c ← pBytes; let d ← pBytes; pure (mt, c, d)) args
+    let marker : Tar.Member := { hdr := { name := b!"x" }, body := [] }
+    let z : Bytes → Bytes := fun x => if x = Tar.archive [] then cgz else dgz
+    pure (hex (Tar.archive (Pkg.ipkOuter mt z [] [marker])))
   -- byte-level rpm file (lead, signature header, header, payload): model writer and reader
   | "rpmfile" => do
     let pEntry : P RpmHdr.Entry := do
